@@ -21,6 +21,17 @@ valid memory and returns a value instead of raising or crashing the check; a sma
 really unmapped by dlclose) in a forked child, where dying from a signal after
 the close is the failure "touched the unloaded library".
 Functions fetched before the close are never called after it.
+
+Every run also forces, in both modes, the schedule "ffi.dlclose(lib) while another
+thread accesses lib": a C helper thread (no GIL) dlopen()s a library whose
+constructor blocks ~300 ms (bounded: poll with timeout), so the dynamic loader's
+lock is held and the C-level dlclose() inside ffi.dlclose has to wait; a second
+Python thread reads / writes lib.<var> and fetches functions as soon as it gets
+to run; once ffi.dlclose has returned and everything has finished, every access
+through lib must raise.  (If the close ever lets other threads in between
+clearing its cache and forgetting the handle, thread B re-caches a raw address
+and the later accesses return values.)  The model side of this is the stepwise
+close (`closestep`), proved safe for every interleaving.
 """
 import ctypes
 import importlib
@@ -31,6 +42,7 @@ import select
 import shutil
 import signal
 import sys
+import threading
 import time
 
 import common
@@ -50,7 +62,9 @@ MANIFEST = {
 
 RULE = ("a sequence = 4..30 operations drawn from {fetch function, fetch+call function, read global, write global, dlclose} "
         "over 7 function names and 4 variable names (one of each not exported by the library), with 0..3 dlclose at random "
-        "positions, executed on a fresh copy of the library in each mode; one case = one operation; non-trivial = an operation "
+        "positions, executed on a fresh copy of the library in each mode; plus forced dlclose-vs-second-thread schedules "
+        "(random accesses before, random accesses by the second thread, loader lock held ~300 ms); "
+        "one case = one operation; non-trivial = an operation "
         "after the first dlclose that targets a name accessed before the close or never accessed, or a repeated dlclose; "
         "distinct = distinct (mode, operation prefix)")
 ASSUMPTIONS = ["values written are within the range of int", "a fresh copy of the library file is a fresh load (initial values of the globals)"]
@@ -230,14 +244,14 @@ def run_sequence(world, mode, ops, pinned, progress=None):
     return obs
 
 
-def model_lines(mode, ops, obs):
+def model_lines(mode, ops, obs, extra_fetched=()):
     """Protocol lines for the model and, per op, the index of its answer line (or None when the op is not sent)."""
     lines = ["open %s F %s V %s" % ("inline" if mode == "inline" else "outofline",
                                     " ".join(str(FID[f]) for f in EXPORTED_F),
                                     " ".join("%d %d" % (VID[v], INIT[v]) for v in VARS if v in INIT))]
     idx = []
     closed = False
-    fetched_before = set()
+    fetched_before = set(extra_fetched)
     for op, ob in zip(ops, obs):
         kind = op[0]
         if kind in ("getf", "call"):
@@ -251,6 +265,10 @@ def model_lines(mode, ops, obs):
             lines.append("read %d" % VID[op[1]])
         elif kind == "write":
             lines.append("write %d %d" % (VID[op[1]], op[2]))
+        elif len(op) > 1 and op[1] == "stepwise":
+            # the same call as the sequence of its steps (other threads' accesses, if any, were before or after)
+            lines.extend(["closestep"] * (2 if mode == "inline" else 3))
+            closed = True
         else:
             lines.append("close")
             closed = True
@@ -258,19 +276,19 @@ def model_lines(mode, ops, obs):
     return lines, idx
 
 
-def judge(ctx, mode, ops, obs, pinned, all_lines, pending):
+def judge(ctx, mode, ops, obs, pinned, all_lines, pending, extra_fetched=(), case_base=None):
     """Oracle on the observations + queue the model comparison."""
     closed = False
-    fetched_ok = set()
+    fetched_ok = set(extra_fetched)
     touched = set()
-    lines, idx = model_lines(mode, ops, obs)
+    lines, idx = model_lines(mode, ops, obs, extra_fetched)
     off = len(all_lines)
     all_lines.extend(lines)
     for i, (op, ob) in enumerate(zip(ops, obs)):
         res, exc, extra = ob
         kind = op[0]
-        case = {"mode": mode, "pinned": pinned, "ops": ops, "index": i}
-        name = op[1] if len(op) > 1 else None
+        case = dict(case_base or {}, mode=mode, pinned=pinned, ops=ops, index=i)
+        name = op[1] if len(op) > 1 and op[0] != "close" else None
         nontrivial = None
         if closed:
             if kind == "close":
@@ -334,6 +352,244 @@ def getter_checks(ctx, mode, ops, obs):
         if extra and extra[0] == "getter" and extra[2] != cur[extra[1]]:
             ctx.disagree({"mode": mode, "ops": ops, "index": i}, extra[2], cur[extra[1]],
                          "the library's own getter does not see the value written through lib")
+
+
+# ---------------------------------------------------------------- dlclose racing with another thread's accesses
+
+LAUNCH_C = r"""
+#include <dlfcn.h>
+#include <pthread.h>
+#include <stdlib.h>
+#include <string.h>
+#include <unistd.h>
+struct job { char path[1024]; int done_fd; };
+static void *runner(void *a)
+{
+    struct job *j = (struct job *)a;
+    void *h = dlopen(j->path, RTLD_NOW | RTLD_LOCAL);   /* runs the blocking constructor with the loader lock held */
+    char c = h ? 'y' : 'n';
+    if (h) dlclose(h);                                  /* unload: the next dlopen runs the constructor again */
+    if (write(j->done_fd, &c, 1) < 0) {}
+    free(j);
+    return 0;
+}
+int c37_launch(const char *path, int done_fd)
+{
+    pthread_t t;
+    struct job *j = (struct job *)malloc(sizeof *j);
+    if (!j) return -1;
+    strncpy(j->path, path, sizeof j->path - 1);
+    j->path[sizeof j->path - 1] = 0;
+    j->done_fd = done_fd;
+    if (pthread_create(&t, 0, runner, j)) { free(j); return -1; }
+    pthread_detach(t);
+    return 0;
+}
+"""
+SLOW_C = r"""
+#include <poll.h>
+#include <stdlib.h>
+#include <unistd.h>
+/* Runs inside dlopen(), i.e. with the dynamic loader's lock held: announce, then block for a bounded
+   time (or until the release pipe becomes readable).  Never blocks for ever. */
+__attribute__((constructor)) static void c37_slow_init(void)
+{
+    const char *s = getenv("C37_START_FD"), *r = getenv("C37_RELEASE_FD"), *ms = getenv("C37_HOLD_MS");
+    struct pollfd p;
+    char c = 's';
+    if (!s || !r) return;
+    if (write(atoi(s), &c, 1) < 0) {}
+    p.fd = atoi(r); p.events = POLLIN; p.revents = 0;
+    poll(&p, 1, ms ? atoi(ms) : 300);
+}
+"""
+HOLD_MS = 300
+RACE_WAIT = 30.0
+
+
+def race_helpers(world):
+    if getattr(world, "launcher", None) is None:
+        lc = os.path.join(world.scratch, "c37_launch.c")
+        lso = os.path.join(world.scratch, "c37_launch.so")
+        sc = os.path.join(world.scratch, "c37_slow.c")
+        world.slow_so = os.path.join(world.scratch, "c37_slow.so")
+        with open(lc, "w") as f:
+            f.write(LAUNCH_C)
+        with open(sc, "w") as f:
+            f.write(SLOW_C)
+        common.compile_shared(lc, lso, extra=["-pthread", "-ldl"])
+        common.compile_shared(sc, world.slow_so)
+        world.launcher = ctypes.CDLL(lso)
+        world.launcher.c37_launch.argtypes = [ctypes.c_char_p, ctypes.c_int]
+        world.launcher.c37_launch.restype = ctypes.c_int
+    return world.launcher
+
+
+def wait_fd(fd, what):
+    ready, _, _ = select.select([fd], [], [], RACE_WAIT)
+    if not ready:
+        raise InfraError("timeout (%.0f s) waiting for %s" % (RACE_WAIT, what))
+    return os.read(fd, 1)
+
+
+def do_access(ffi, lib, op):
+    """read / write / getf on a library object -> [canonical result, exception type or None, None]"""
+    try:
+        if op[0] == "read":
+            return ["ok %d" % getattr(lib, op[1]), None, None]
+        if op[0] == "write":
+            setattr(lib, op[1], op[2])
+            return ["ok", None, None]
+        x = getattr(lib, op[1])
+        return ["ok func" if ffi.typeof(x).kind == "function" else "ok other", None, None]
+    except Exception as e:
+        return ["err", type(e).__name__, None]
+
+
+def gen_race(rng):
+    pre = []
+    for _ in range(rng.randint(0, 5)):
+        r = rng.random()
+        if r < 0.4:
+            pre.append(["read", rng.choice(VARS[:3])])
+        elif r < 0.6:
+            pre.append(["write", rng.choice(VARS[:3]), rng.randint(-1000, 1000)])
+        else:
+            pre.append(["getf", rng.choice(EXPORTED_F)])
+    b_ops = [[rng.choice(["read", "read", "write"]), rng.choice(VARS[:3])]]     # always an exported global
+    for _ in range(rng.randint(0, 3)):
+        r = rng.random()
+        if r < 0.6:
+            b_ops.append([rng.choice(["read", "write"]), rng.choice(VARS)])
+        else:
+            b_ops.append(["getf", rng.choice(FUNCS)])
+    for op in b_ops:
+        if op[0] == "write":
+            op.append(rng.randint(-1000, 1000))
+    rng.shuffle(b_ops)
+    return pre, b_ops
+
+
+def run_race(world, mode, pre, b_ops):
+    """ffi.dlclose(lib) in the main thread while the dynamic loader's lock is held by a helper thread (so the
+    C-level dlclose() has to wait), with a second Python thread accessing lib as soon as it gets to run.
+    Returns (pre observations, [(op, obs, started_after_close_returned)] of thread B, close observation,
+    after ops, after observations)."""
+    ffi = world.ffi(mode)
+    launcher = race_helpers(world)
+    path = world.fresh_copy()
+    pin = ctypes.CDLL(path, mode=ctypes.RTLD_GLOBAL)
+    lib = ffi.dlopen(path)
+    fds = []
+    go = threading.Event()
+    close_returned = threading.Event()
+    b_log = []
+    b_state = {"error": None}
+
+    def thread_b():
+        try:
+            if not go.wait(RACE_WAIT):
+                b_state["error"] = "thread B was never released"
+                return
+            # first round at once: whenever this thread first gets to run after the main thread set off
+            after = close_returned.is_set()
+            for op in b_ops:
+                b_log.append((op, do_access(ffi, lib, op), after))
+            # second round once ffi.dlclose has returned in the main thread
+            if not close_returned.wait(RACE_WAIT):
+                b_state["error"] = "ffi.dlclose did not return within %.0f s" % RACE_WAIT
+                return
+            if not after:
+                for op in b_ops:
+                    b_log.append((op, do_access(ffi, lib, op), True))
+        except BaseException as e:
+            b_state["error"] = "%s: %s" % (type(e).__name__, e)
+
+    try:
+        pre_obs = [do_access(ffi, lib, op) for op in pre]
+        start_r, start_w = os.pipe()
+        rel_r, rel_w = os.pipe()
+        done_r, done_w = os.pipe()
+        fds = [start_r, start_w, rel_r, rel_w, done_r, done_w]
+        os.environ["C37_START_FD"] = str(start_w)
+        os.environ["C37_RELEASE_FD"] = str(rel_r)
+        os.environ["C37_HOLD_MS"] = str(HOLD_MS)
+        tb = threading.Thread(target=thread_b, daemon=True)
+        tb.start()
+        if launcher.c37_launch(world.slow_so.encode(), done_w) != 0:
+            raise InfraError("could not start the loader-lock helper thread")
+        wait_fd(start_r, "the blocking constructor to start (loader lock held)")
+        go.set()
+        try:
+            ffi.dlclose(lib)
+            close_obs = ["ok", None, None]
+        except Exception as e:
+            close_obs = ["err", type(e).__name__, None]
+        close_returned.set()
+        tb.join(RACE_WAIT)
+        if tb.is_alive():
+            raise InfraError("thread B did not finish within %.0f s" % RACE_WAIT)
+        if b_state["error"]:
+            raise InfraError("thread B: " + b_state["error"])
+        if wait_fd(done_r, "the helper's dlopen to return") != b"y":
+            raise InfraError("the helper could not dlopen the blocking library")
+        fetched_before = set(op[1] for op, ob in zip(pre, pre_obs) if op[0] == "getf" and ob[0].startswith("ok"))
+        fetched_before |= set(op[1] for op, ob, after in b_log if op[0] == "getf" and not after and ob[0].startswith("ok"))
+        after_ops = [list(op) for op, ob, after in b_log if after]
+        after_obs = [ob for op, ob, after in b_log if after]
+        for v in VARS:
+            for op in (["read", v], ["write", v, 77], ["read", v]):
+                after_ops.append(op)
+                after_obs.append(do_access(ffi, lib, op))
+        for f in FUNCS:
+            after_ops.append(["getf", f])
+            after_obs.append(do_access(ffi, lib, ["getf", f]))
+        try:
+            ffi.dlclose(lib)
+            again = ["ok", None, None]
+        except Exception as e:
+            again = ["err", type(e).__name__, None]
+        after_ops.append(["close"])
+        after_obs.append(again)
+        during = [[op, ob[0]] for op, ob, after in b_log if not after]
+        return pre_obs, during, close_obs, after_ops, after_obs, sorted(fetched_before)
+    finally:
+        for k in ("C37_START_FD", "C37_RELEASE_FD", "C37_HOLD_MS"):
+            os.environ.pop(k, None)
+        for fd in fds:
+            try:
+                os.close(fd)
+            except OSError:
+                pass
+        try:
+            ffi.dlclose(lib)
+        except Exception:
+            pass
+        del lib
+        import _ctypes
+        h = pin._handle
+        del pin
+        _ctypes.dlclose(h)
+        try:
+            os.unlink(path)
+        except OSError:
+            pass
+
+
+def race_scenarios(ctx, world, n, rng, all_lines, pending):
+    for k in range(n):
+        pre, b_ops = gen_race(rng)
+        for mode in ("inline", "outofline"):
+            pre_obs, during, close_obs, after_ops, after_obs, fetched = run_race(world, mode, pre, b_ops)
+            ops = pre + [["close", "stepwise"]] + after_ops
+            obs = pre_obs + [close_obs] + after_obs
+            base = {"scenario": "dlclose-vs-thread", "pre": pre, "b_ops": b_ops, "hold_ms": HOLD_MS,
+                    "accesses_of_thread_B_before_dlclose_returned": during}
+            ctx.count("%s:race-scenarios" % mode)
+            ctx.count("%s:race:accesses-of-B-before-dlclose-returned" % mode, len(during))
+            ctx.count("%s:race:accesses-of-B-that-succeeded-before-dlclose-returned" % mode,
+                      sum(1 for d in during if d[1].startswith("ok")))
+            judge(ctx, mode, ops, obs, True, all_lines, pending, extra_fetched=fetched, case_base=base)
 
 
 # ---------------------------------------------------------------- unpinned runs in a forked child
@@ -413,9 +669,10 @@ def run_forked(ctx, world, jobs):
 
 # ---------------------------------------------------------------- entry points
 
-def explore(ctx, nseq_pinned, nseq_forked, rng, oracle_only=False):
+def explore(ctx, nseq_pinned, nseq_forked, nrace, rng, oracle_only=False):
     world = World(ctx)
     all_lines, pending = [], []
+    race_scenarios(ctx, world, nrace, rng, all_lines, pending)
     for k in range(nseq_pinned):
         ops = gen_sequence(rng)
         for mode in ("inline", "outofline"):
@@ -449,17 +706,28 @@ def explore(ctx, nseq_pinned, nseq_forked, rng, oracle_only=False):
 
 
 def correspond(ctx):
-    explore(ctx, ctx.n(250, 6000), ctx.n(40, 600), ctx.rng)
+    explore(ctx, ctx.n(250, 6000), ctx.n(40, 600), ctx.n(4, 40), ctx.rng)
 
 
 def search(ctx):
-    explore(ctx, ctx.n(1500, 20000), ctx.n(100, 1000), random.Random("C37/search/%d" % ctx.seed), oracle_only=True)
+    explore(ctx, ctx.n(1500, 20000), ctx.n(100, 1000), ctx.n(12, 80), random.Random("C37/search/%d" % ctx.seed), oracle_only=True)
 
 
 def replay(ctx, obj):
     case = obj["case"]
     world = World(ctx)
     mode, ops = case["mode"], case["ops"]
+    if case.get("scenario"):
+        n0 = len(ctx.failures)
+        pre_obs, during, close_obs, after_ops, after_obs, fetched = run_race(world, mode, case["pre"], case["b_ops"])
+        print("%s: thread B before dlclose returned: %r" % (mode, during))
+        for op, ob in zip(after_ops, after_obs):
+            print(mode, "after dlclose:", op, "->", ob[0], ob[1] or "")
+        judge(ctx, mode, case["pre"] + [["close", "stepwise"]] + after_ops, pre_obs + [close_obs] + after_obs, True, [], [],
+              extra_fetched=fetched, case_base={"scenario": case["scenario"]})
+        for f in ctx.failures[n0:]:
+            print("fails:", f["detail"])
+        return 1 if len(ctx.failures) > n0 else 0
     if case.get("pinned", True):
         obs = run_sequence(world, mode, ops, True)
         died = None
